@@ -1012,6 +1012,7 @@ fn mutated_key_case(ctx: &mut Ctx, before: &[u8], k: &pgp::packet::SecretKey, fi
 }
 
 fn sig_mutations(ctx: &mut Ctx, sig: &pgp::packet::Signature, label: &str) {
+    use pgp::packet::KeyFlags;
     let Some(orig) = serialize(&Packet::Signature(sig.clone())) else { return };
     let n_un = sig.config().map(|c| c.unhashed_subpackets.len()).unwrap_or(0);
     let big = |n: usize| SubpacketData::Notation(pgp::packet::Notation { readable: true, name: "n@example.org".into(), value: pattern(n, n).into() });
@@ -1024,6 +1025,14 @@ fn sig_mutations(ctx: &mut Ctx, sig: &pgp::packet::Signature, label: &str) {
         big(10), big(150), big(180), big(200), big(8200), big(16300), big(16400),
         SubpacketData::Revocable(true),
         SubpacketData::Features(pgp::packet::Features::default()),
+        // key flags / features built through their setters (not parsed): every flag alone, the ones
+        // that live in the second octet as well (the length on the wire grows with them)
+        SubpacketData::KeyFlags({ let mut f = KeyFlags::default(); f.set_certify(true); f.set_sign(true); f }),
+        SubpacketData::KeyFlags({ let mut f = KeyFlags::default(); f.set_adsk(true); f }),
+        SubpacketData::KeyFlags({ let mut f = KeyFlags::default(); f.set_timestamping(true); f.set_encrypt_comms(true); f }),
+        SubpacketData::KeyFlags({ let mut f = KeyFlags::default(); f.set_adsk(true); f.set_timestamping(true); f.set_authentication(true); f }),
+        SubpacketData::KeyFlags(KeyFlags::default()),
+        SubpacketData::Features({ let mut f = pgp::packet::Features::default(); f.set_seipd_v1(true); f.set_seipd_v2(true); f }),
     ];
     for (j, d) in subs.into_iter().enumerate() {
         for critical in [false, true] {
